@@ -1119,6 +1119,45 @@ Proof.
   rewrite (split_on_none _ _ H2). cbn [hd]. rewrite (split_on_none _ _ H1). reflexivity.
 Qed.
 
+(** DecodeProp over several values: all succeed, in order, or the first failure
+    is the result. *)
+Lemma decode_prop_all_ok tags rc ps ids :
+  decode_prop_all tags rc ps = Ok ids <->
+  Forall2 (fun t s => decode_prop t rc ps = Ok s) tags ids.
+Proof.
+  revert ids. induction tags as [|t r IH]; intros ids; cbn [decode_prop_all].
+  - split.
+    + intros H. injection H as <-. constructor.
+    + intros H. inversion H. reflexivity.
+  - destruct (decode_prop t rc ps) as [s|c|] eqn:E; cbn [bind].
+    + destruct (decode_prop_all r rc ps) as [l|c|] eqn:E2; cbn [bind].
+      * split.
+        -- intros H. injection H as <-. constructor; [exact E|]. apply IH. reflexivity.
+        -- intros H. inversion H as [|t0 s0 r0 l0 H1 H2]; subst.
+           rewrite E in H1. injection H1 as <-.
+           apply IH in H2. injection H2 as <-. reflexivity.
+      * split; [discriminate|].
+        intros H. inversion H as [|t0 s0 r0 l0 H1 H2]; subst. apply IH in H2. discriminate.
+      * split; [discriminate|].
+        intros H. inversion H as [|t0 s0 r0 l0 H1 H2]; subst. apply IH in H2. discriminate.
+    + split; [discriminate|]. intros H. inversion H as [|t0 s0 r0 l0 H1 H2]; subst.
+      rewrite E in H1. discriminate.
+    + split; [discriminate|]. intros H. inversion H as [|t0 s0 r0 l0 H1 H2]; subst.
+      rewrite E in H1. discriminate.
+Qed.
+
+Lemma decode_prop_all_first_failure pre t post rc ps ids :
+  Forall2 (fun t s => decode_prop t rc ps = Ok s) pre ids ->
+  (forall c, decode_prop t rc ps = Err c -> decode_prop_all (pre ++ t :: post) rc ps = Err c) /\
+  (decode_prop t rc ps = Panic -> decode_prop_all (pre ++ t :: post) rc ps = Panic).
+Proof.
+  intros H. induction H as [|t0 s0 r0 l0 H1 H2 IH]; cbn [app decode_prop_all].
+  - split; intros; rewrite H; reflexivity.
+  - rewrite H1. cbn [bind]. destruct IH as [IH1 IH2]. split.
+    + intros c Hc. rewrite (IH1 c Hc). reflexivity.
+    + intros Hp. rewrite (IH2 Hp). reflexivity.
+Qed.
+
 (** First candidate overall: the specification of the selection in DecodeProp. *)
 Definition spec_select (ps : list (N * list raw)) (n : name) : res raw :=
   match filter (fun p => option_eqb name_eqb (raw_name (snd p)) (Some n))
